@@ -270,6 +270,17 @@ def run(prog, rep):
     st = None
     if len(ins) == 1:
         st = LoadedPair(ins[0].args[1], ins[0].args[2], list(__import__("q").conds(ins[0].pc)), ins[0].where())
+        # a loop over `names.filter(C)..collect()`: the entries that reach the body are the ones that passed C
+        for lid in ins[0].loops or ():
+            node = (rs.loops.get(lid) or {}).get("node")
+            for fs in [x for x in rs.all_sites() if x.kind == "for" and node is not None and x.node is node]:
+                src = fs.args[0] if fs.args else None
+                while isinstance(src, tuple) and src and (src[0] == "collect" or (src[0] == "hof" and src[1] in ("filter", "map")) or
+                                                          (src[0] == "call" and isinstance(src[1], str) and len(src[2]) == 1 and
+                                                           last(src[1]) in ("iter", "into_iter", "clone", "to_vec", "into_keys"))):
+                    if src[0] == "hof" and src[1] == "filter":
+                        st.conds.extend(__import__("q").conds([("if", src[3], True)]))
+                    src = src[1] if src[0] == "collect" else (src[2][0] if src[0] == "call" else src[2])
     elif not ins:
         st = collected_pair(rs.ret, where)          # the map is the value of an iterator pipeline: `..filter(C).map(|e| Ok((K, V))).collect()`
     if st is None:
